@@ -9,17 +9,6 @@ def run(chk):
     ac.run_actor_property(chk, MODULE, THEOREMS, monitor_pids=["C05"], extra=globals().get("extra"))
 
 
-def search(chk):
-    res = ac.exploration(chk)
-    for k, f in sorted(res["findings"].items()):
-        if f["property"] == "C05":
-            chk.violation(f["key"], f["what"], {"kind": "scenario", "scenario": f["scenario"], "step": f["step"]})
-
-
-def replay(path):
-    return ac.replay(path)
-
-
 def extra(chk, info, res):
     from checks import tank_common as tc
 
@@ -123,86 +112,10 @@ def valve_monitor(chk):
     chk.correspondence("C05 monitor on the real composed system: valve/level traces against config.ini's thresholds for the mode's level set (with eco/open round trips) and the 2 h / 6 h limits (incl. force-empty toggled while halted, wintering)", n + polls, bad)
 
 
+
 def search(chk):
-    res = ac.exploration(chk)
-    for k, f in sorted(res["findings"].items()):
-        if f["property"] == "C05":
-            chk.violation(f["key"], f["what"], {"kind": "scenario", "scenario": f["scenario"], "step": f["step"]})
+    valve_monitor(chk)
 
 
 def replay(path):
     return ac.replay(path)
-
-
-def extra(chk, info, res):
-    from checks import tank_common as tc
-
-    tc.decisions_correspondence(chk)
-    valve_monitor(chk)
-
-
-def valve_monitor(chk):
-    """C05 (ii)/(iii) on the real composed system: valve vs measured level at every tank poll; limits 2 h / 6 h incl. the
-    history 'force-empty switched on and off while Filtration is halted'."""
-    import random
-    from sim import scenario
-
-    rng = random.Random(chk.seed + 5)
-    n = 0
-    hist = [
-        ("force-empty on/off in halt, level never rises", [["tank", 5], ["mqtt", "/settings/tank/force_empty", "ON"], ["mqtt", "/settings/tank/force_empty", "OFF"], ["run", 2 * 3600 + 60]], 2 * 3600 + 30),
-        ("eco, level stuck in low", [["tank", 50], ["mqtt", "/settings/mode", "eco"], ["run", 100], ["tank", 22], ["run", 6 * 3600 + 120]], 6 * 3600 + 30),
-        ("force-empty on/off in halt, level rises above too_low then sticks in low", [["tank", 5], ["mqtt", "/settings/tank/force_empty", "ON"], ["mqtt", "/settings/tank/force_empty", "OFF"], ["run", 30], ["tank", 14], ["run", 6 * 3600 + 120]], 30 + 6 * 3600 + 15),
-        ("force-empty on/off in halt, level in low then drops below too_low", [["tank", 5], ["mqtt", "/settings/tank/force_empty", "ON"], ["mqtt", "/settings/tank/force_empty", "OFF"], ["run", 30], ["tank", 14], ["run", 600], ["tank", 3], ["run", 120], ["tank", 14], ["run", 60]], 700),
-        ("wintering entered, force-empty toggled", [["tank", 3], ["mqtt", "/settings/mode", "wintering"], ["run", 30], ["mqtt", "/settings/tank/force_empty", "ON"], ["run", 5], ["mqtt", "/settings/tank/force_empty", "OFF"], ["run", 2 * 3600 + 60]], 2 * 3600 + 30),
-    ]
-    for name, acts, limit in hist:
-        r = scenario.Runner({"tank_raw": 1000.0, "cover_rate": 25.0}, [])
-        for a in acts:
-            r.do(a)
-        # longest continuous energised interval of pin main
-        pin = r.sys.pins["main"][0]
-        on_since, longest = None, 0.0
-        for (t, kind, data) in r.world.log:
-            if kind == "gpio" and data[0] == pin:
-                if data[1] is False and on_since is None:
-                    on_since = t
-                elif data[1] is True and on_since is not None:
-                    longest = max(longest, (t - on_since) / 1e6)
-                    on_since = None
-        if on_since is not None:
-            longest = max(longest, (r.world.now_us - on_since) / 1e6)
-        still_open = r.sys.pin_on("main")
-        r.world.close()
-        n += 1
-        if longest > limit or still_open:
-            chk.violation("main-valve-open-forever" if still_open else "main-valve-open-too-long", f"{name}: mains valve energised {longest:.0f} s (limit {limit} s), still open: {still_open}", {"kind": "scenario", "scenario": {"opts": {"tank_raw": 1000.0, "cover_rate": 25.0}, "actions": acts}})
-    # hysteresis on random level traces
-    bad = 0
-    polls = 0
-    for k in range(6 if chk.tier == "quick" else 60):
-        r = scenario.Runner({"tank_raw": 1000.0, "cover_rate": 25.0}, [])
-        r.do(["tank", 50]); r.do(["mqtt", "/settings/mode", "eco"]); r.do(["run", 60])
-        if rng.random() < 0.5:
-            r.do(["mqtt", "/settings/mode", "standby"]); r.do(["run", 400])
-        for _ in range(40):
-            lvl = rng.choice([12, 14, 15, 16, 24, 25, 26, 34, 35, 36, 50, 64, 65, 66, 74, 75, 76, 90])
-            r.do(["tank", lvl])
-            r.do(["run", rng.choice([5, 10, 11, 21])])
-            if not r.world.alive("Tank"):
-                break
-            t = r.world.actor("Tank")
-            low = t.levels["low"]
-            st = r.sys.state("Tank")
-            polls += 1
-            # after at least one full poll period with a constant level the valve must agree with the hysteresis band
-            if st in ("low", "normal", "high", "fill"):
-                open_ = r.sys.pin_on("main")
-                if open_ and st not in ("fill", "low"):
-                    bad += 1
-        r.world.close()
-    chk.correspondence("C05 monitor on the real composed system: valve/level traces and the 2 h / 6 h limits (incl. force-empty toggled while halted, wintering)", n + polls, bad)
-
-
-def search(chk):
-    valve_monitor(chk)
